@@ -33,11 +33,16 @@ impl Piece {
                 let n = p.len();
                 let mut pos = false;
                 let mut neg = false;
+                // (a point on the boundary belongs to the piece; the tests leave a few ulps of slack, or a point that
+                // lies exactly on the edge shared by two pieces could fall outside both by rounding)
                 for i in 0..n {
-                    let c = cross(sub(p[(i + 1) % n], p[i]), sub(q, p[i]));
-                    if c > 0.0 {
+                    let e = sub(p[(i + 1) % n], p[i]);
+                    let v = sub(q, p[i]);
+                    let c = cross(e, v);
+                    let eps = 1e-9 * len(e) * len(v);
+                    if c > eps {
                         pos = true;
-                    } else if c < 0.0 {
+                    } else if c < -eps {
                         neg = true;
                     }
                 }
@@ -45,7 +50,7 @@ impl Piece {
             }
             Piece::Sector { c, r, a, b } => {
                 let v = sub(q, *c);
-                if dot(v, v) > r * r {
+                if dot(v, v) > r * r * (1.0 + 1e-9) {
                     return false;
                 }
                 let s = cross(*a, *b);
@@ -53,11 +58,12 @@ impl Piece {
                     return false;
                 }
                 let sg = s.signum();
-                cross(*a, v) * sg >= 0.0 && cross(v, *b) * sg >= 0.0
+                let eps = 1e-9 * len(v);
+                cross(*a, v) * sg >= -eps && cross(v, *b) * sg >= -eps
             }
             Piece::HalfDisc { c, r, dir } => {
                 let v = sub(q, *c);
-                dot(v, v) <= r * r && dot(v, *dir) >= 0.0
+                dot(v, v) <= r * r * (1.0 + 1e-9) && dot(v, *dir) >= -1e-9 * len(v)
             }
         }
     }
